@@ -200,3 +200,19 @@ func vh_multiply_nil() {
 	vObserve("same", r == p)
 	vObserveEl("P", p)
 }
+
+// identity producers on a receiver in an arbitrary prior state (C05 / C10)
+func vh_el_identity(kind int) {
+	e := vElement("e")
+	switch kind {
+	case 0:
+		e.Identity()
+	case 1:
+		vAssume(e.Decode([]byte{0}) == nil)
+	case 2:
+		e.Multiply(nil)
+	case 3:
+		e = NewElement()
+	}
+	vObserveEl("E", e)
+}
